@@ -48,7 +48,8 @@ Snap(op, w, src, exc, wr2, inst2) ==
   [op |-> op, w |-> w, src |-> src, exc |-> exc, wr |-> wr2,
    made |-> Len(inst2) - 1,
    died |-> Cardinality({i \in 1..Len(inst2) : inst2[i].destroyed > 0}),
-   touched |-> [i \in 1..Len(inst2) |-> inst2[i].touched]]
+   touched |-> [i \in 1..Len(inst2) |-> inst2[i].touched],
+   alive |-> [i \in 1..Len(inst2) |-> inst2[i].alive]]
 
 Record(op, w, src, exc) == hist' = Append(hist, Snap(op, w, src, exc, wr', inst'))
 
